@@ -220,6 +220,17 @@ def slotRun {π : Type} (sel : Selector π) (thr : XF) (itv : Nat) :
   | _, s, [] => s
   | count, s, i :: is => slotRun sel thr itv (count + 1) (slotStep sel thr itv count s i) is
 
+/-- all slots of the optimizer state advance with the same counter: slot `k` receives the `k`-th root result -/
+def stateStep {π : Type} (sel : Selector π) (thr : XF) (itv count : Nat) (ss : List (Slot π)) (ins : List (Inp π)) :
+    List (Slot π) :=
+  List.zipWith (slotStep sel thr itv count) ss ins
+
+/-- the whole state after a history of per-step lists of root results -/
+def stateRun {π : Type} (sel : Selector π) (thr : XF) (itv : Nat) :
+    Nat → List (Slot π) → List (List (Inp π)) → List (Slot π)
+  | _, ss, [] => ss
+  | count, ss, ins :: rest => stateRun sel thr itv (count + 1) (stateStep sel thr itv count ss ins) rest
+
 /-- `True` for the inputs that the gate may accept at counter `count` -/
 def Accepted {π : Type} (thr : XF) (itv count : Nat) (i : Inp π) : Prop :=
   performStep itv count = true ∧ i.err.isNaN = false ∧ i.err.lt thr = true
